@@ -690,7 +690,7 @@ func genPure() string {
 	return b.String()
 }
 
-func exprString(fset *token.FileSet, e ast.Expr) string {
+func exprString(fset *token.FileSet, e ast.Node) string {
 	start, end := fset.Position(e.Pos()), fset.Position(e.End())
 	src, err := os.ReadFile(start.Filename)
 	if err != nil || end.Offset > len(src) {
